@@ -120,7 +120,7 @@ class _Rename(ast.NodeTransformer):
         return ast.copy_location(ast.Name(id=self.b, ctx=n.ctx), n) if n.id == self.a else n
 
 
-SHAPE_PRESERVING = re.compile(r'^(?:np\.(?:asarray|asanyarray|ascontiguousarray|asfortranarray|array)\((\w+)[,)]|int\((\w+)\)$|float\((\w+)\)$)')
+SHAPE_PRESERVING = re.compile(r'^(?:np\.(?:asarray|asanyarray|ascontiguousarray|asfortranarray|array|require)\((\w+)[,)]|int\((\w+)\)$|float\((\w+)\)$)')
 
 
 def _atom_vars(atom: str) -> list[str]:
